@@ -70,10 +70,26 @@ static const Prop *find_prop(const std::string &id) {
   return nullptr;
 }
 
+// per-case watchdog: a single case that runs longer than VF_CASE_TIMEOUT seconds (default 240; cases normally take
+// milliseconds to a few seconds) kills the process with SIGALRM; the driver then replays the journal recipe under its own
+// limit and reports it only if that single case reproducibly does not terminate
+static unsigned case_timeout() {
+  static int t = -1;
+  if (t < 0) {
+    const char *e = getenv("VF_CASE_TIMEOUT");
+    t = e ? atoi(e) : 240;
+  }
+  return (unsigned)t;
+}
+
 static Verdict safe_exec(const Prop *p, const Case &c) {
   try {
-    return p->exec(c);
+    alarm(case_timeout());
+    Verdict v = p->exec(c);
+    alarm(0);
+    return v;
   } catch (const std::exception &e) {
+    alarm(0);
     Verdict v;
     v.fail(std::string("harness exception: ") + e.what());
     return v;
